@@ -80,11 +80,10 @@ def printed_json(out):
 def design_check(tier, ev, wd):
     """Exhaustive TLC runs; returns (states, transitions)."""
     states = trans = 0
-    clean = [("WideColumnCache", "WideColumnCache_MC.cfg"), ("WideColumnCache", "WideColumnCache_MC2.cfg"),
-             ("KeyOfSetCache", "KeyOfSetCache_MC.cfg")]
+    clean = [("WideColumnCache", "WideColumnCache_MC2.cfg"), ("KeyOfSetCache", "KeyOfSetCache_MC.cfg")]
     if tier == "thorough":
-        clean += [("KeyOfSetCache", "KeyOfSetCache_MC2k.cfg"),
-                  ("WideColumnCache", "WideColumnCache_MCfull.cfg"), ("KeyOfSetCache", "KeyOfSetCache_MC3.cfg"),
+        clean += [("WideColumnCache", "WideColumnCache_MC.cfg"), ("KeyOfSetCache", "KeyOfSetCache_MC2k.cfg"),
+                  ("KeyOfSetCache", "KeyOfSetCache_MC3.cfg"),
                   ("KeyOfSetCache", "KeyOfSetCache_DFlush.cfg"), ("KeyOfSetCache", "KeyOfSetCache_AsIs.cfg"),
                   ("WideColumnCache", "WideColumnCache_MC4K.cfg")]
     runs = []
@@ -125,7 +124,7 @@ def derive_cfg(wd, base, **consts):
     return path
 
 
-FILL_LO, FILL_N = 200, 1022   # filler elements that scale the model threshold 2 to the real 1024
+FILL_LO, FILL_N = 200, 1023   # filler elements that scale the model threshold 1 to the real 1024
 
 
 def scale_steps(steps, keys):
@@ -148,18 +147,18 @@ def gen_behaviours(wd, seed, tier, ev):
     behs = []
     rng = random.Random(seed)
     q = tier == "quick"
-    ncex = 30 if q else 400
-    nsim = 80 if q else 1500
+    ncex = 24 if q else 300
+    nsim = 60 if q else 1000
     cov = {}
     fams = [("WideColumnCache", derive_cfg(wd, "WideColumnCache_Cex.cfg", **({"MaxOps": 2} if q else {})),
              "WideColumnCache_Gen.cfg", False),
             ("KeyOfSetCache", derive_cfg(wd, "KeyOfSetCache_Cex.cfg", **({"MaxBatches": 2} if q else {})),
              "KeyOfSetCache_Gen.cfg", False),
-            ("KeyOfSetCache", derive_cfg(wd, "KeyOfSetCache_CexL.cfg", **({"MaxOps": 5} if q else {"MaxOps": 6})),
+            ("KeyOfSetCache", derive_cfg(wd, "KeyOfSetCache_CexL.cfg", **({} if q else {"MaxOps": 6})),
              "KeyOfSetCache_GenL.cfg", True)]
     for mod, cexcfg, gencfg, scaled in fams:
         if scaled:
-            ncex_f, nsim_f = (8, 12) if q else (150, 300)
+            ncex_f, nsim_f = (8, 12) if q else (80, 150)
         else:
             ncex_f, nsim_f = ncex, nsim
         r = vp.tlc(mod, cfg=cexcfg, workers=4, timeout=1500, extra=["-continue"], check_ok=False, xmx="6g")
@@ -487,9 +486,9 @@ def run(tier, seed):
     ev["replay_aborted"] = len(aborted)
     # I->S
     q = tier == "quick"
-    plans = [("seq", dict(mode="seq", seed=seed, runs=60 if q else 600, steps=60)),
-             ("seqbig", dict(mode="seq", seed=seed + 1000, runs=6 if q else 40, steps=50, map="set", big=True)),
-             ("par", dict(mode="par", seed=seed + 2000, runs=30 if q else 400, ops=8, chaos=300, maxw=2, maxr=2))]
+    plans = [("seq", dict(mode="seq", seed=seed, runs=50 if q else 400, steps=60)),
+             ("seqbig", dict(mode="seq", seed=seed + 1000, runs=5 if q else 30, steps=50, map="set", big=True)),
+             ("par", dict(mode="par", seed=seed + 2000, runs=24 if q else 200, ops=8, chaos=300, maxw=2, maxr=2))]
     total_runs = nruns
     for name, kw in plans:
         tp0 = time.time()
